@@ -122,7 +122,10 @@ def run_valid(case, rec):
     exp = ref_ir.expected_sig(api, meta)
     act = ref_ir.api_sig(payload)
     for path, e, a, names in diff_with_names(exp, act):
-        sig = 'C02|diff|%s|%s' % ('.'.join(path), explain(api, path, names, e, a))
+        why = explain(api, path, names, e, a)
+        # a string literal rewritten by the lexer is one root cause wherever the literal sits
+        where = '*' if why.startswith('string-') else '.'.join(path)
+        sig = 'C02|diff|%s|%s' % (where, why)
         rec.violation(sig, 'API description differs from the spec at %s (%s): expected %r, got %r' % (
             '.'.join(path), '.'.join(str(n) for n in names), e, a), case=case, human=specs)
     for b in ref_ir.invariants(payload):
